@@ -207,7 +207,7 @@ def main(tier, seed, budget):
             for job, out in pool.imap(st, timeout=900):
                 if out[0] == 'ok':
                     r = out[1]
-                    got.setdefault(job['tag'][0], []).append((r['digest'], tuple(sorted(r['hashes'].items())), repr(r['violation']),
+                    got.setdefault(job['tag'][0], []).append((r['digest'], tuple(sorted(r['hashes'].items())), repr((r['violation'] or {}).get('sig')),
                                                               repr([rk['clock']['fired'] for rk in r['ranks'] if rk.get('clock')])))
             bad = [k for k, v in got.items() if len(v) == 2 and v[0] != v[1]]
             selftest['same_seed_twice_with_faults'] = dict(pairs=len(got), mismatches=len(bad))
